@@ -211,7 +211,9 @@ Definition AppendTimes (dst : bytes) (l : list tval) (f : timefmt) := append_sli
    float64(d)/float64(unit) (bits and texts) *)
 Record dval := { d_ns : Z; d_quot : fval }.
 Definition AppendDuration (dst : bytes) (d : dval) (unit : Z) (useInt : bool) (prec : Z) : bytes :=
-  if useInt then AppendInt dst (Z.quot (d_ns d) unit) else AppendFloat64 dst (d_quot d) prec.
+  (* int64(d / unit): Go's quotient truncates toward zero and wraps for MinInt64 / -1;
+     unit = 0 panics in Go (integer divide by zero) - excluded by the premise [dur_ok] *)
+  if useInt then AppendInt dst (wrap64 (Z.quot (d_ns d) unit)) else AppendFloat64 dst (d_quot d) prec.
 Definition AppendDurations (dst : bytes) (l : list dval) (unit : Z) (useInt : bool) (prec : Z) :=
   append_slice (fun d x => AppendDuration d x unit useInt prec) dst l.
 
